@@ -85,6 +85,10 @@ type sessWorld struct {
 	// Gates: a call whose "side.Op" is armed blocks (after its begin entry)
 	// until the harness closes the channel.
 	gateArmed map[string]bool
+	// betaDown makes every Connect to beta fail (C29 "down"/"up" events);
+	// restartPaused records a paused flag that a manager restart changed.
+	betaDown      bool
+	restartPaused string
 	gateHeld  map[string]chan struct{}
 
 	// Arguments of every Transition call, per side (for oracles that need
@@ -362,7 +366,11 @@ func (jHandler) Connect(
 	w.mu.Lock()
 	w.inst[side]++
 	inst := w.inst[side]
+	down := w.betaDown && !alpha
 	w.mu.Unlock()
+	if down {
+		return nil, errors.New("harness: endpoint unreachable")
+	}
 	var inner synchronization.Endpoint
 	if s := w.script[side]; s != nil {
 		inner = &scriptedEndpoint{w: w, side: side, s: s}
